@@ -86,17 +86,20 @@ def trace_cfg(name, dev):
 # ----------------------------------------------------------------------------- (A)
 
 def model_check(tier, out):
-    """Configuration (A) with -coverage 1 (vacuity guard); result in out['mc']."""
+    """Configuration (A); the first run with -coverage 1 (vacuity guard); results in out['mc']."""
     try:
-        if tier == "quick":
-            cfg = mc_cfg("Txn.mc.quick.cfg", ["a", "b"], [1], 2, 1)
-        else:
-            cfg = mc_cfg("Txn.mc.thorough.cfg", ["a", "b", "c"], [1], 2, 1)
-        res = vlib.run_tlc("Txn", cfg, workers=4, coverage=True, timeout=3000, heap="2g")
-        vlib.require_ok(res, "Txn (configuration A)")
-        if res.coverage_zero:
-            raise vlib.Inconclusive("actions never taken (vacuous model): %s" % res.coverage_zero)
-        out["mc"] = res
+        cfgs = [mc_cfg("Txn.mc.0.cfg", ["a", "b"], [1], 2, 1)]
+        if tier == "thorough":
+            cfgs += [mc_cfg("Txn.mc.1.cfg", ["a", "b", "c"], [1], 1, 0),
+                     mc_cfg("Txn.mc.2.cfg", ["a", "b"], [1, 2], 1, 0)]
+        runs = []
+        for i, cfg in enumerate(cfgs):
+            res = vlib.run_tlc("Txn", cfg, workers=4, coverage=(i == 0), timeout=3000, heap="2g")
+            vlib.require_ok(res, "Txn (configuration A, %s)" % cfg)
+            if i == 0 and res.coverage_zero:
+                raise vlib.Inconclusive("actions never taken (vacuous model): %s" % res.coverage_zero)
+            runs.append(res)
+        out["mc"] = runs
     except Exception as e:  # noqa
         out["mc_error"] = e
 
@@ -337,8 +340,8 @@ def run(tier, seed):
                 "scenarios failing with a known-finding signature are non-trivial (they have >= 2 operations)"
                 % (universes,),
         "samples": _samples(scen) + _trace_sample(traces),
-        "states": mc.distinct + sum(g.distinct for g in gens),
-        "transitions": mc.generated + sum(g.generated for g in gens),
+        "states": sum(m.distinct for m in mc) + sum(g.distinct for g in gens),
+        "transitions": sum(m.generated for m in mc) + sum(g.generated for g in gens),
         "traces_validated_against_impl": n_traces - len(rejections),
         "trace_events": n_events,
         "traces_by_mode": modes,
@@ -351,8 +354,8 @@ def run(tier, seed):
         "failed_scenarios_by_signature": fails_by_sig,
         "classes": _top(out.classes, 40),
         "exhaustive": True,
-        "tlc": {"model_checking": {"module": "Txn", "spec": "MCSpec", "generated": mc.generated, "distinct": mc.distinct,
-                                   "depth": mc.depth, "wall_s": round(mc.wall, 1)},
+        "tlc": {"model_checking": [{"module": "Txn", "spec": "MCSpec", "generated": m.generated, "distinct": m.distinct,
+                                    "depth": m.depth, "wall_s": round(m.wall, 1)} for m in mc],
                 "generation": [{"module": "TxnGen", "universe": list(u), "generated": g.generated, "distinct": g.distinct,
                                 "scenarios": g.scn, "wall_s": round(g.wall, 1)} for u, g in zip(universes, gens)],
                 "trace_validation": {"module": "TraceTxn", "states": last.distinct if last else 0}},
